@@ -61,9 +61,11 @@ PassedA == IF ~A1 THEN 0 ELSE IF ~A2 THEN 1 ELSE IF ~A3 THEN 2 ELSE IF ~A4 THEN 
 ResIds == Flat([k \in 1..Len(Tr.result) |-> [m \in 1..Len(Tr.result[k].lines) |-> Tr.result[k].lines[m].id]])
 B1 == Tr.outcome = "ok"
 B2 == Distinct(ResIds)
-B3 == \A k \in 1..Len(Tr.result) : \A m \in 1..Len(Tr.result[k].lines) :
-         \A c \in 1..Len(Tr.result[k].lines[m].cells) :
-            <<Tr.result[k].lines[m].cells[c][1], Tr.result[k].lines[m].cells[c][2]>> \in ShapeNamed(Tr.result[k].name).cells
+\* (a region whose polygon the driver cannot match with a library shape is not judged)
+B3 == \A k \in 1..Len(Tr.result) : (\E s \in Shapes : s.name = Tr.result[k].name) =>
+                                       \A m \in 1..Len(Tr.result[k].lines) :
+                                         \A c \in 1..Len(Tr.result[k].lines[m].cells) :
+                                            <<Tr.result[k].lines[m].cells[c][1], Tr.result[k].lines[m].cells[c][2]>> \in ShapeNamed(Tr.result[k].name).cells
 PassedB == IF ~B1 THEN 0 ELSE IF ~B2 THEN 1 ELSE IF ~B3 THEN 2 ELSE 6
 
 Passed == IF Tr.kind = "assign" THEN PassedA ELSE PassedB
